@@ -39,7 +39,7 @@ def bounds(tier):
             "enum_set_size": 3, "date_pool": len(DATES)}
 
 
-KINDS = ["int", "num", "str", "bool", "date", "list"]
+KINDS = ["int", "num", "str", "bool", "date", "list", "numfrac"]
 
 
 def cells(tier, seed):
@@ -89,6 +89,13 @@ def mk(ctx, kind, name, n=0):
             return vdec(sym_float(v)), v
         v = ctx.int(name)
         return vint(v), v
+    if kind == "numfrac":
+        # ints next to decimals with a fractional part (negative ones too): the oracle key is twice the value
+        if ctx.choice(name + ".isdec", 2):
+            k_ = ctx.choice(name, 8) - 4
+            return vdec(k_ + 0.5), 2 * k_ + 1
+        v = ctx.int(name, -4, 4)
+        return vint(v), 2 * v
     if kind == "str":
         s = ctx.str(name, n)
         return vstr(s), s
